@@ -580,6 +580,7 @@ class Seams:
         self.real_resource = psutil._pslinux.resource
         self.world = None
         self._wait_defaults = psutil._psposix.wait_pid.__defaults__
+        self._orig_timer = psutil._timer
         # snapshot of module-level mutables at import time
         self._import_state = dict(
             scputimes=psutil._pslinux.scputimes,
@@ -725,11 +726,16 @@ class Seams:
         self._set(ps._pslinux, "cext_posix", cp)
         self._set(ps._pslinux, "net_if_addrs", pos["net_if_addrs"])
         self._set(ps._pslinux, "resource", FakeResource(world, self.real_resource))
-        self._set(ps, "_timer", ftime.monotonic)
+        import time as real_time
+
+        def clock(orig):
+            # the simulated counterpart of whichever clock the code under test chose (a wall clock stays a wall clock)
+            return ftime.time if orig is real_time.time else ftime.monotonic
+        self._set(ps, "_timer", clock(self._orig_timer))
         d = list(self._wait_defaults)
         # (timeout, proc_name, _waitpid, _timer, _min, _sleep, _pid_exists)
         d[2] = fos.waitpid
-        d[3] = ftime.monotonic
+        d[3] = clock(d[3])
         d[5] = ftime.sleep
         ps._psposix.wait_pid.__defaults__ = tuple(d)
         self._set(ps._common, "supports_ipv6", lambda: world.ipv6)
